@@ -122,6 +122,17 @@ REGISTRY = {
         'assumptions': ['commands are handed to the driver through trigger (as the authority does)', 'time between un-waited events is far below the 2000 ms timeout'],
         'trusted': ['modelled, not verified: std::time::Instant as a monotone millisecond clock; (rpm as f32 / 10.0) as u8 as saturating integer division'],
     },
+    'C10': {
+        'rule': 'real NetworkAuthority::{recv,on_tick} on the emulated bus (one instance, deterministic): all histories of length <=5 (quick) / <=6 (thorough) over {frame accepted from the unit, frame from elsewhere, cycle} x timeout classes {absent, never-expiring, already expired} x 4 unit kinds; random histories of 8..48 events over multi-unit configurations incl. both shipped driver lists and a list with an unknown entry (cycle counts crossing 10 and 20); '
+                'timed histories with a 150 ms timeout and real 250 ms silences (48 quick / 400 thorough); ModuleStatus objects published per cycle (name, state, error) and frames compared with the extracted authority model; the C10 predicate (truthful, on change + every tenth cycle, silent start, canonical names) evaluated on the real publications with independently tracked heard/time/previous-status; non-trivial = a status was published; distinct by case text',
+        'exhaustive': {'quick': False, 'thorough': False},
+        'level_text': 'Theorems C10_healthy_sound (+ preserved invariant), C10_timeout, C10_recovers, C10_on_change_and_every_tenth (iff), C10_silent_start and C10_receive_bookkeeping (driver lists of any length) are proved about the Gallina model of the authority\'s per-unit status logic and receive scan for ALL unit states, cycle numbers and clock values; the whole-history predicate c10_spec_ok is evaluated on the real publications and the model is tied by differential execution.',
+        'level_note': 'partial: the theorems are per-step (every cycle / every received frame, all states) with a preserved invariant; the end-to-end statement over whole histories (c10_spec_ok for every history) is checked by execution, not yet proved. elapsed() > timeout is modelled on an integer millisecond clock as elapsed = delta + eps. Trusted: kernel, extraction, drv.ml, harness (bus hub).',
+        'technique': 'Rocq proof (case analysis of the status decision, preserved invariant, induction over the driver list) + differential execution of the real NetworkAuthority incl. real-time timeouts',
+        'explanation': 'seven theorems in Properties/C10.v',
+        'assumptions': ['one authority instance is stepped (recv / on_tick of the three runtime clones share the contexts through Arc<Mutex>)', 'time between un-waited events is far below 150 ms'],
+        'trusted': ['modelled, not verified: std::time::Instant, tokio broadcast send, the emulated bus'],
+    },
     'C11': {
         'rule': 'every driver kind x 3 address configurations x 34 parameter groups x destination classes {unit, daemon, 0xFF, other} x ALL 256 source addresses (first configuration complete in quick, all in thorough), real try_recv on a fresh context: rx_count, rx_last_message and the signals are observed and compared with the extracted model; the C11 predicate (credited => source = unit; signals name the unit; addressed elsewhere / Request => nothing changes) is evaluated on the real observation; '
                 'non-trivial = frame whose source is the unit; distinct by case text',
